@@ -304,7 +304,8 @@ def run_history(sess, rng, fam, oracle, max_steps=None):
             keys = sorted(sess.inflight, key=repr)
             key = keys[rng.randrange(len(keys))]
             if rng.random() < fam["p_intermediate"]:
-                stt = rng.choice(["running", "pausing", "paused", "pending", "resuming", "canceling"])
+                stt = rng.choice(fam.get("intermediate_statuses") or
+                                 ["running", "pausing", "paused", "pending", "resuming", "canceling"])
                 sess.report(key, stt, None)
             else:
                 stt, res = oracle.outcome(key, sess.inflight[key])
